@@ -191,6 +191,12 @@ func (e *Exec) forge22(s *slot, atom string, body []byte) ([]byte, error) {
 		}, nil, owner.Key)
 	case "no_entries":
 		return rebuild(func(t *cb.Node) { t.At(0).Kids[4] = cb.Arr() }, nil, owner.Key)
+	case "no_entries_mfg_signed":
+		// a never-extended voucher names the manufacturer as owner: the manufacturer re-registers a sold device
+		return rebuild(func(t *cb.Node) { t.At(0).Kids[4] = cb.Arr() }, nil, e.W.Mfg.Key)
+	case "strip_certchain":
+		// the genuine owner registers the voucher without its device certificate chain
+		return rebuild(func(t *cb.Node) { t.At(0).Kids[3] = cb.Null() }, nil, owner.Key)
 	case "entry_resigned_stranger":
 		// the chain's only entry re-signed by a stranger (who then also signs to1d as "owner")
 		var ferr error
